@@ -211,6 +211,8 @@ impl<Body> AmendedRequest<Body> {
             let n = h
                 .to_str()
                 .ok()
+                // parse::<u64>() is too lenient, it accepts a leading +.
+                .filter(|s| s.bytes().all(|b| b.is_ascii_digit()))
                 .and_then(|s| s.parse::<u64>().ok())
                 .ok_or(Error::BadContentLengthHeader)?;
             content_length = Some(n);
